@@ -12,7 +12,7 @@ DATA = os.path.join(VERIF, "known", "C06_targets.json")
 def finding_key(c, r, table):
     """known-finding key of a failing (N,k,target): exact target sets for N<=5, raise site above"""
     slug = comp.site_slug(r) if r.get("out") == "RuntimeError" else r.get("out", "?")
-    if c["N"] <= 5:
+    if c.get("enumerated"):      # completely enumerated classes: exact target sets
         key = "N%dk%d:%s" % (c["N"], c["k"], slug)
         return key if c["target"] in table.get(key, ()) else None
     return "N>=6:%s" % slug
@@ -53,20 +53,21 @@ def main():
         if r.get("exc") == "Timeout":
             r = {"out": "timeout"}
         slug = comp.site_slug(r) if r.get("out") == "RuntimeError" else r.get("out", "?")
-        rec.setdefault("N%dk%d:%s" % (c["N"], c["k"], slug), []).append(c["target"])
+        if c.get("enumerated"):
+            rec.setdefault("N%dk%d:%s" % (c["N"], c["k"], slug), []).append(c["target"])
         key = finding_key(c, r, table)
         ck.fail(key, "compile_target(%s, k=%d) does not return a sequence: %s %s (target %s the closure of the universal set)" % (
             c["target"], c["k"], r.get("out"), r.get("msg", r.get("type", "")), "is in" if reach else "is not in / not checked against"),
             {"N": c["N"], "k": c["k"], "target": c["target"], "outcome": r, "target_in_closure": reach})
     if record:
         os.makedirs(os.path.dirname(DATA), exist_ok=True)
-        json.dump({k: sorted(v) for k, v in sorted(rec.items()) if int(k[1]) <= 5}, open(DATA, "w"), indent=0)
+        json.dump({k: sorted(v) for k, v in sorted(rec.items())}, open(DATA, "w"), indent=0)
         print("recorded", {k: len(v) for k, v in rec.items()})
     ck.cov["evaluations"] = len(cases)
     ck.cov["distinct_nontrivial"] = len(nt)
     ck.cov["rule"] = ("compile_target on all 4^N-1 targets and all 2<=k<N for N<=%d, sampled N up to %d, per-target watchdog; outcome in {sequence, RuntimeError at site, other exception, timeout}; "
                       "non-trivial = target compiled; failing targets are matched against the committed known-finding table (exact target sets per (N,k,raise site) for N<=5, per raise site above)"
-                      % ((4, 7) if ck.quick else (5, 8)))
+                      % ((5, 7) if ck.quick else (5, 8)))
     ck.cov["samples"] = [[c["N"], c["k"], c["target"], r.get("out")] for c, r in list(zip(cases, res))[:: max(1, len(cases) // 6)]][:6]
     ck.cov["distribution"] = stats
     ck.cov["exhaustive"] = True
